@@ -30,7 +30,10 @@ RULE = ("corpora of 1..3 sentences from all tree shapes with n<=N tokens (discon
         "reader options of that format, plain or gzipped; one evaluation = (corpus, format, layout, option "
         "subset); non-trivial = distinct (format, option subset, first tree); bracket automaton: every "
         "token-class sequence over {(,),WS,TOKEN} up to length L (adjacent WS WS / TOKEN TOKEN cannot be "
-        "rendered and are left out), classified by a recursive-descent reference grammar")
+        "rendered and are left out), classified by a recursive-descent reference grammar; the format's "
+        "whitespace is the ASCII set string.whitespace: words and POS tags of the bracket / discobracket corpora "
+        "(and the tokens of a second pass over the automaton) also contain U+00A0, U+3000, U+0085, U+2028 "
+        "and 0x1c-0x1f, which are ordinary token characters there; TIGER-XML corpora carry those of them XML 1.0 allows")
 
 # The reader docstring says indices run 1..n (and the package's own writer
 # writes them so).  The reader as implemented adds 1 (anticipated finding F9),
@@ -66,6 +69,7 @@ def BOUNDS(ctx):
             "sentences_per_corpus": "1..3",
             "bracket_sequence_len": 7 if ctx.quick else 9,
             "bracket_sequence_len_emptypos": 6 if ctx.quick else 8,
+            "bracket_sequence_len_uspace": 6 if ctx.quick else 8,
             "disco_bases": list(DISCO_BASES),
             "option_subsets": "all subsets of the options each format offers"}
 
@@ -314,11 +318,17 @@ def c_gf_plain(ctx, w):
 _NAMES = "abcdefghijklmnop"
 
 
-def render_seq(seq):
+def render_seq(seq, uspace=False):
+    """uspace: every token carries a character that is space for str.isspace() but not whitespace
+    of the format (rotating through lib_formats.USPACE_CHARS), before, inside or after a letter"""
     out, k = [], 0
     for ch in seq:
         if ch == "t":
-            out.append(_NAMES[k])
+            name = _NAMES[k]
+            if uspace:
+                u = lf.USPACE_CHARS[k % len(lf.USPACE_CHARS)]
+                name = (name + u + name, u + name, name + u)[k % 3]
+            out.append(name)
             k += 1
         elif ch == "_":
             out.append(" ")
@@ -338,7 +348,7 @@ def _eof_inside_group(text):
 
 
 def c_bracket_groups(ctx, w):
-    text = render_seq(w["seq"])
+    text = render_seq(w["seq"], bool(w.get("uspace")))
     emptypos = bool(w.get("emptypos"))
     ref, ref_err = lf.bracket_groups(text, emptypos=emptypos)
     for i, s in enumerate(ref):
@@ -538,6 +548,12 @@ def generate(ctx):
         full = [lf.decorate(lf.map_spec(s), rng, words=lf.WORDS_ALL, pos=pos) for s in corpus]
         full = lf.with_sids(full, sids)
         key0 = tg.spec_str(full[0])
+        # TIGER-XML can also carry words with non-ASCII space characters (export cannot: its
+        # fields are separated by any whitespace); every second corpus gets some
+        xfull = full
+        if n_c % 2 == 0:
+            xfull = [lf.map_spec(s, lambda l: l.update(w=rng.choice(lf.WORDS_USPACE_XML))
+                                 if rng.random() < 0.3 else None) for s in full]
         for names in _subsets(["continuous", "gf_split", "replace_parens", "quiet"]):
             enc = dict(EXPORT_LAYOUTS[(n_c + len(names)) % len(EXPORT_LAYOUTS)])
             if "gf_split" in names:
@@ -548,7 +564,7 @@ def generate(ctx):
             enc = dict(XML_LAYOUTS[(n_c + len(names)) % len(XML_LAYOUTS)])
             if "gf_split" in names:
                 enc["gf_decorate"] = True
-            yield "read_tigerxml", {"fmt": "tigerxml", "specs": full, "enc": enc, "opts": _opts(names),
+            yield "read_tigerxml", {"fmt": "tigerxml", "specs": xfull, "enc": enc, "opts": _opts(names),
                                     "seed": n_c, "gz": (n_c % 16 == 0 and len(names) == 0)}, ("tigerxml", names, key0)
         if n_c % 2 == 0:
             for fmt in ("export", "tigerxml"):
@@ -557,9 +573,12 @@ def generate(ctx):
         # brackets: continuous trees, parentheses in tokens under their PTB names
         cont = [s for s in full if lf.spec_is_continuous(s)]
         if cont:
-            words = lf.WORDS_ALL + ["S-Bahn"]
+            # characters that are space for str.isspace() but not whitespace of the format
+            # (string.whitespace) are ordinary token characters, in words and in labels
+            words = lf.WORDS_ALL + ["S-Bahn"] + lf.WORDS_USPACE
+            bpos = tg.POS + (lf.POS_USPACE if n_c % 3 == 1 else [])
             br = [lf.escape_spec_for_brackets(lf.decorate(lf.map_spec(s), rng, words=words, morph=False, lemma=False,
-                                                          pos=tg.POS)) for s in cont]
+                                                          pos=bpos)) for s in cont]
             for names in _subsets(["gf_split", "replace_parens", "brackets_firstid", "quiet", "brackets_emptypos"]):
                 enc = dict(BRACKET_LAYOUTS[(n_c + len(names)) % len(BRACKET_LAYOUTS)])
                 if "gf_split" in names:
@@ -570,8 +589,9 @@ def generate(ctx):
                 yield "read_brackets", {"fmt": "brackets", "specs": br, "enc": enc, "opts": _opts(names), "gz": gz}, \
                     ("brackets", names, tg.spec_str(br[0]))
         # discobrackets: any shape; sentence part carries the raw tokens
-        wpool = lf.WORDS_ALL if n_c % 4 == 0 else lf.WORDS_NOPAREN + ["(", ")"]
-        db = [lf.decorate(lf.map_spec(s), rng, words=wpool, morph=False, lemma=False, pos=tg.POS) for s in corpus]
+        wpool = (lf.WORDS_ALL if n_c % 4 == 0 else lf.WORDS_NOPAREN + ["(", ")"]) + lf.WORDS_USPACE
+        dpos = tg.POS + (lf.POS_USPACE if n_c % 3 != 1 else [])
+        db = [lf.decorate(lf.map_spec(s), rng, words=wpool, morph=False, lemma=False, pos=dpos) for s in corpus]
         for names in _subsets(["gf_split", "replace_parens", "brackets_firstid", "quiet"]):
             base = DISCO_BASES[0] if (n_c + len(names)) % 4 else DISCO_BASES[-1]
             enc = dict(DISCO_LAYOUTS[(n_c + len(names)) % len(DISCO_LAYOUTS)])
@@ -595,6 +615,9 @@ def generate(ctx):
     for seq in _sequences(b["bracket_sequence_len_emptypos"]):
         if "(" in seq:
             yield "bracket_groups", {"seq": seq, "emptypos": True}, seq + "+e"
+    for seq in _sequences(b["bracket_sequence_len_uspace"]):
+        if "(" in seq and "t" in seq:
+            yield "bracket_groups", {"seq": seq, "uspace": True}, seq + "+u"
 
 
 def exhaustive(ctx):
